@@ -45,6 +45,12 @@ def main(prop):
 
     if prop in ("C01", "C07"):
         lemmas.repo_pairs_validation(run)
+    if prop == "C01":
+        # the verdict must not depend on WHERE in a long listing the window lies (the lemmas treat the stream as one
+        # string of unbounded length; the consumer is only executed here): windows planted around multiples of 2^k
+        from checks import c11
+
+        c11.long_listing_probe(run)
     if prop == "C07":
         # the reported text must be the engine's whole match (group 0) and the reported address its prefix: the
         # forwarding harness of C12 (engine stubbed) — a rule with capture groups must not change what is reported
